@@ -15,6 +15,56 @@ const PG_TYPES: [Type; 18] = [
     Type::TEXT, Type::VARCHAR, Type::JSON, Type::JSONB, Type::BIT, Type::VARBIT, Type::TIMESTAMP,
 ];
 
+/// `io::Read` / `io::Write` whose answers the harness decides (the environment of the stream codecs):
+/// mode 0 = every call transfers at most `k` bytes; mode 1 = the first call transfers at most `k` bytes, later
+/// calls as much as asked; mode 2 = at most 3 bytes per call and call number `k` fails once with
+/// `ErrorKind::Interrupted` (which `read_exact` / `write_all` must retry).
+struct Env {
+    data: Vec<u8>,
+    pos: usize,
+    mode: usize,
+    k: usize,
+    calls: usize,
+}
+impl Env {
+    fn new(data: Vec<u8>, mode: usize, k: usize) -> Self {
+        Env { data, pos: 0, mode, k, calls: 0 }
+    }
+    fn limit(&mut self) -> std::io::Result<usize> {
+        self.calls += 1;
+        match self.mode {
+            0 => Ok(self.k),
+            1 => Ok(if self.calls == 1 { self.k } else { usize::MAX }),
+            2 => {
+                if self.calls == self.k {
+                    Err(std::io::Error::new(std::io::ErrorKind::Interrupted, "interrupted"))
+                } else {
+                    Ok(3)
+                }
+            }
+            _ => panic!("harness: bad stream mode"),
+        }
+    }
+}
+impl std::io::Read for Env {
+    fn read(&mut self, buf: &mut [u8]) -> std::io::Result<usize> {
+        let n = self.limit()?.min(buf.len()).min(self.data.len() - self.pos);
+        buf[..n].copy_from_slice(&self.data[self.pos..self.pos + n]);
+        self.pos += n;
+        Ok(n)
+    }
+}
+impl std::io::Write for Env {
+    fn write(&mut self, buf: &[u8]) -> std::io::Result<usize> {
+        let n = self.limit()?.min(buf.len());
+        self.data.extend_from_slice(&buf[..n]);
+        Ok(n)
+    }
+    fn flush(&mut self) -> std::io::Result<()> {
+        Ok(())
+    }
+}
+
 fn opt<T: IntoV, E>(r: Result<T, E>) -> V {
     match r {
         Ok(x) => V::some(x.into_v()),
@@ -38,6 +88,7 @@ define_ops! {
     ssz_enc = |a: U| (ssz::Encode::as_ssz_bytes(&a), ssz::Encode::ssz_bytes_len(&a), <Uint<B, L> as ssz::Encode>::ssz_fixed_len(), <Uint<B, L> as ssz::Encode>::is_ssz_fixed_len());
     borsh_enc = |a: U| borsh::to_vec(&a).map_err(|_| ());
     borsh_bits_enc = |a: U| borsh::to_vec(&Bits::from(a)).map_err(|_| ());
+    borsh_env_enc = |a: U, mode: N, k: N| { let mut w = Env::new(vec![], mode, k); borsh::BorshSerialize::serialize(&a, &mut w).map(|_| w.data).map_err(|_| ()) };
     der_enc = |a: U| (opt(der::Encode::to_der(&a)), opt(der::Encode::encoded_len(&a).map(|l| u32::from(l) as usize)), opt(der::EncodeValue::value_len(&a).map(|l| u32::from(l) as usize)));
     der_any_enc = |a: U| opt(der::Encode::to_der(&der::asn1::Any::from(&a)));
     der_int_enc = |a: U| opt(der::Encode::to_der(&der::asn1::Int::from(&a)));
@@ -83,6 +134,7 @@ define_ops! {
     ssz_dec = |s: BY| opt(<Uint<B, L> as ssz::Decode>::from_ssz_bytes(&s));
     borsh_dec = |s: BY| opt(borsh::from_slice::<Uint<B, L>>(&s));
     borsh_bits_dec = |s: BY| opt(borsh::from_slice::<Bits<B, L>>(&s));
+    borsh_env_dec = |s: BY, mode: N, k: N| { let mut rd = Env::new(s, mode, k); let r = <Uint<B, L> as borsh::BorshDeserialize>::deserialize_reader(&mut rd); (opt(r), rd.pos) };
     borsh_reader_dec = |s: BY| { let mut b = &s[..]; let r = <Uint<B, L> as borsh::BorshDeserialize>::deserialize_reader(&mut b); (opt(r), s.len() - b.len()) };
     der_dec = |s: BY| opt(<Uint<B, L> as der::Decode>::from_der(&s));
     der_anyref_dec = |s: BY| opt(<der::asn1::AnyRef as der::Decode>::from_der(&s).and_then(Uint::<B, L>::try_from));
@@ -313,7 +365,7 @@ fn model(bits: usize, op: Op, args: &[V]) -> Expect {
             .nt(true)
         }
         ssz_enc => is(V::T(vec![by(rc::fixed_le(&a(), nb)), V::n(nb), V::n(nb), V::B(true)])).nt(true),
-        borsh_enc | borsh_bits_enc => is(V::ok(by(rc::fixed_le(&a(), nb)))).nt(true),
+        borsh_enc | borsh_bits_enc | borsh_env_enc => is(V::ok(by(rc::fixed_le(&a(), nb)))).nt(true),
         der_enc => {
             let e = rc::der(&a());
             let cl = rc::der_content(&a()).len();
@@ -410,7 +462,7 @@ fn model(bits: usize, op: Op, args: &[V]) -> Expect {
             let den = if s().len() == nb { Some(BigUint::from_bytes_le(s())) } else { None };
             may_accept(bits, den, None, true)
         }
-        borsh_reader_dec => {
+        borsh_reader_dec | borsh_env_dec => {
             let den = if s().len() >= nb { Some(BigUint::from_bytes_le(&s()[..nb])) } else { None };
             may_accept(bits, den, Some(nb), true)
         }
@@ -480,6 +532,30 @@ fn roundtrips(l: &mut Local, bits: usize, v: &BigUint) {
     must(l, Op::borsh_dec, rc::fixed_le(v, nb), false);
     must(l, Op::borsh_bits_dec, rc::fixed_le(v, nb), false);
     must(l, Op::borsh_reader_dec, rc::fixed_le(v, nb), true);
+    // the same encoding delivered by a stream in pieces: every chunk size (a dense set above 40 bytes), every
+    // position of one short first read, an interrupted call at every call index; one trailing byte must stay unread
+    {
+        let mut input = rc::fixed_le(v, nb);
+        input.push(0xEE);
+        let ks: Vec<usize> = if nb <= 40 { (1..=nb + 2).collect() } else { vec![1, 2, 3, 7, 8, 9, 15, 16, 17, 31, 32, 33, nb - 1, nb, nb + 1, nb + 2] };
+        let mut env = |l: &mut Local, mode: usize, k: usize| {
+            let args = [V::Bytes(input.clone()), V::n(mode), V::n(k)];
+            let got = l.guard(Op::borsh_env_dec.name(), Op::borsh_env_dec.src(), bits, &args, || dispatch(bits, Op::borsh_env_dec, &args));
+            l.record(Op::borsh_env_dec.name(), Op::borsh_env_dec.src(), bits, &args, got, is(V::T(vec![some(&val), V::n(nb)])).nt(true));
+            if mode != 1 {
+                exec(l, bits, Op::borsh_env_enc, &[val.clone(), V::n(mode), V::n(k)]);
+            }
+        };
+        for &k in &ks {
+            env(l, 0, k);
+        }
+        for p in 1..nb {
+            env(l, 1, p);
+        }
+        for k in 1..=nb / 3 + 2 {
+            env(l, 2, k);
+        }
+    }
     for op in [Op::der_dec, Op::der_anyref_dec, Op::der_any_dec, Op::der_intref_dec, Op::der_int_dec, Op::der_uintref_dec, Op::der_uint_dec] {
         must(l, op, rc::der(v), false);
     }
